@@ -3,7 +3,7 @@ From Martian.Common Require Import ExtractBase.
 From Martian.C11 Require Import Model.
 Extraction Language OCaml.
 Extraction "model.ml" base_anchor
-  repaired original st0 pair0 loop adapter_data emit run_frames run_ops run_session sess0 ops_of outs_of pair_after
+  repaired original st0 pair0 loop adapter_data emit run_frames run_ops run_session sess0 sess_cfg pair_cfg has_proc std_stream_is_grpc ops_of outs_of pair_after
   wire parse_stream decode reenc
   c11_ok proc_msgs_ok proc_eos_ok sink_msgs_ok sink_eos_ok sink_msg_count sink_flags_lens_ok
   decodable lens_ok es_only_last last_es is_partition calls_of datas_of
